@@ -212,23 +212,32 @@ def replay(rep, c):
 
 
 def removetree_unvalidated_regression(rep, prop="C01"):
-    """open finding: `FS.removetree` normalises its argument WITHOUT validating it, so a component with an
-    invalid character that `..` cancels is never seen — on every filesystem that inherits the method
-    (`MultiFS`, `MountFS`, `FTPFS`) `removetree("x\\0/..")` empties the root, where `MemoryFS`/`OSFS` (which
-    validate) and every other method of the same object raise InvalidCharsInPath and change nothing
-    (Lean: `BaseWalkLaws.removetree_nul_counterexample`)"""
-    b = H.build_state("multi", [("D", "d"), ("F", "d/g", b"g"), ("F", "keep", b"k")])
-    try:
-        pre = H.snapshot(b.fs)
-        impl = H.apply_op(b.fs, ("removetree", "x\0/.."))
-        post = H.snapshot(b.fs)
-    finally:
-        b.close()
-    rep.evaluations += 1
-    rep.nontrivial("removetree-unvalidated", "multi")
-    if impl[0] == "ok" or post != pre:
-        rep.violation({"backend": "multi", "pre_tree": [[e[0], e[1]] for e in pre], "op": ["removetree", "x\0/.."],
-                       "impl": list(impl[:2]), "impl_post_tree": None if post is None else [[e[0], e[1]] for e in post]},
-                      "multi.removetree('x\\0/..') — verdict: backend %s and tree %r, reference ('err', 'InvalidCharsInPath') and the "
-                      "tree unchanged: FS.removetree normalises its argument without validating it" % (impl[:2], [e[:2] for e in post or []]),
-                      found_input=True, signature="%s/known/removetree-unvalidated-path" % prop)
+    """regression of the FIXED finding `removetree-unvalidated-path` (/repo 433aea4): `FS.removetree` used to
+    normalise its argument WITHOUT validating it, so a component with an invalid character that `..` cancels was
+    never seen — on every filesystem that inherits the method (`MultiFS`, `MountFS`, `FTPFS`) `removetree("x\\0/..")`
+    emptied the root.  It now starts with `validatepath` like every other method: InvalidCharsInPath and an
+    unchanged tree are REQUIRED (Lean: `BaseWalkLaws.removetree_nul_repaired`, `multi_closed_removetree_class_repaired`);
+    a closed filesystem says FilesystemClosed before it looks at the path"""
+    for kind in ("multi", "mount-root"):
+        b = H.build_state(kind, [("D", "d"), ("F", "d/g", b"g"), ("F", "keep", b"k")])
+        try:
+            pre = H.snapshot(b.fs)
+            impl = H.apply_op(b.fs, ("removetree", "x\0/.."))
+            post = H.snapshot(b.fs)
+            b.fs.close()
+            closed = H.apply_op(b.fs, ("removetree", "../.."))
+        finally:
+            b.close()
+        rep.evaluations += 2
+        rep.nontrivial("removetree-unvalidated", kind)
+        if tuple(impl[:2]) != ("err", "InvalidCharsInPath") or post != pre:
+            rep.violation({"backend": kind, "pre_tree": [[e[0], e[1]] for e in pre], "op": ["removetree", "x\0/.."],
+                           "impl": list(impl[:2]), "impl_post_tree": None if post is None else [[e[0], e[1]] for e in post]},
+                          "%s.removetree('x\\0/..') — verdict: backend %s and tree %r, reference ('err', 'InvalidCharsInPath') and the "
+                          "tree unchanged: FS.removetree must validate its argument before normalising it (regression of the fixed "
+                          "finding removetree-unvalidated-path)" % (kind, impl[:2], [e[:2] for e in post or []]),
+                          found_input=True, signature="%s/%s/removetree/unvalidated-path" % (prop, kind))
+        if tuple(closed[:2]) != ("err", "FilesystemClosed"):
+            rep.violation({"backend": kind, "closed": True, "op": ["removetree", "../.."], "impl": list(closed[:2])},
+                          "closed %s.removetree('../..') -> %s; the reference (and every other method) says FilesystemClosed first"
+                          % (kind, closed[:2]), found_input=True, signature="%s/%s/removetree/closed-class" % (prop, kind))
